@@ -153,6 +153,11 @@ def accepted_texts(sch, ctxflags, alpha, N, limit):
     return out
 
 
+# texts refused at the first token: unknown name, stray brace, bad escape, octal escape above 0xFF, input ending inside
+# a string or a comment
+ABORTED_AT_FIRST_TOKEN = [['zz', '=', '7'], ['}'], ['"\\9"'], ['"a\\477"'], ['"abc'], ["'abc"], ['/*', 'x']]
+
+
 def shard_e3(shard):
     sid, ctxflags, nhist, first, pool, rejects, deadline = shard
     sch = SCHEMAS[sid]
@@ -169,14 +174,31 @@ def shard_e3(shard):
                 st.samples.append({'schema': sid, 'history': m, 'expected': e})
         del cases[:], exps[:], metas[:]
 
-    for rest in itertools.product(range(len(pool) + len(rejects)), repeat=nhist - 1):
-        # a rejected text only in last position
-        if any(k >= len(pool) for k in rest[:-1]):
-            continue
-        seq = [pool[first]] + [pool[k] if k < len(pool) else rejects[k - len(pool)] for k in rest]
+    def sequences():
+        for rest in itertools.product(range(len(pool) + len(rejects)), repeat=nhist - 1):
+            # a rejected text only in last position
+            if any(k >= len(pool) for k in rest[:-1]):
+                continue
+            yield [pool[first]] + [pool[k] if k < len(pool) else rejects[k - len(pool)] for k in rest]
+        # a text refused at its very first token (nothing denoted yet: the context is what it was) in front of and
+        # between accepted texts - the scanner and the parser start the next text from scratch
+        for ab in ABORTED_AT_FIRST_TOKEN:
+            if ab[0] in ('zz', '}'):
+                r0 = RefParser(ctxflags).parse(new_store(sch, ctxflags), tokens_from_words(ab))
+                if r0.verdict != REJECT or r0.items:
+                    continue
+            yield [ab, pool[first]]
+            for k in range(min(len(pool), 12)):
+                yield [pool[first], ab, pool[k]]
+                if nhist > 2:
+                    yield [ab, pool[first], ab, pool[k]]
+
+    for seq in sequences():
         store = new_store(sch, ctxflags)
         verdict = ACCEPT
         for words in seq:
+            if any(words is ab for ab in ABORTED_AT_FIRST_TOKEN):
+                continue
             p = RefParser(ctxflags)
             res = p.parse(store, tokens_from_words(words))
             verdict = res.verdict
